@@ -4,7 +4,7 @@
    every key type whose comparison is a strict weak order (SWO), hence for all six Go tree types (C11). *)
 From Coq Require Import ZArith NArith List Bool.
 From GB Require Import Model Spec Inv Order OrderProof SearchProof SpecLaws InvProof SearchScanProof
-     UpsertProof DeleteProof HistoryProof KeyOrders KnownFindings Conc LockInv LockProof ConcProps.
+     UpsertProof DeleteProof HistoryProof KeyOrders KnownFindings Conc GI LockInv LockProof ConcProps Frame FrameInv FrameProof SoloProof.
 Import ListNotations.
 Open Scope nat_scope.
 
@@ -287,3 +287,86 @@ Theorem C07_lock_table_invariant :
   NoDup (map fst progs) -> lock_inv (fst (exec ltb order (init_st progs) sched)).
 Proof. exact lock_inv_reachable. Qed.
 Print Assumptions C07_lock_table_invariant.
+
+(* ====================== concurrent model: write discipline (C07, C05) ====================== *)
+
+(* a step of thread [me] never writes a node it does not hold (the lock granted in this very step counts as
+   held): for every schedule of every program set, the fields of any other node that was in the tree are
+   unchanged -- or the node is no longer reachable (which only happens to nodes the stepping thread holds, or
+   when a split drops entries of an over-full node; excluded below by capacity) *)
+Theorem C07_writes_only_under_lock :
+  forall (K V : Type) (ltb : K -> K -> bool) order (progs : list (tid * list (cop K V))) sched me s' acq ev x,
+  NoDup (map fst progs) ->
+  let s := reach ltb order progs sched in
+  cstep ltb order s me = Stepped s' acq ev ->
+  In x (ids (tr s)) -> ~ In x (held_by me (lk s)) -> acq <> Some (Some x) ->
+  node_view x (tr s') = node_view x (tr s) \/ node_view x (tr s') = None.
+Proof. exact reach_step_frame_weak. Qed.
+Print Assumptions C07_writes_only_under_lock.
+
+(* with capacity (no node holds more than 2*(order/2) entries, a clause of the shape invariant) nothing is dropped *)
+Theorem C07_writes_only_under_lock_exact :
+  forall (K V : Type) (ltb : K -> K -> bool) order (progs : list (tid * list (cop K V))) sched me s' acq ev x,
+  NoDup (map fst progs) ->
+  let s := reach ltb order progs sched in
+  lossless order (tr s) ->
+  cstep ltb order s me = Stepped s' acq ev ->
+  In x (ids (tr s)) -> ~ In x (held_by me (lk s)) -> acq <> Some (Some x) ->
+  node_view x (tr s') = node_view x (tr s).
+Proof. exact reach_step_frame. Qed.
+Print Assumptions C07_writes_only_under_lock_exact.
+
+(* the entry pointer (which node is the root) changes only in a step of the thread holding the tree mutex *)
+Theorem C07_root_pointer_under_tree_mutex :
+  forall (K V : Type) (ltb : K -> K -> bool) order (progs : list (tid * list (cop K V))) sched me s' acq ev,
+  NoDup (map fst progs) ->
+  let s := reach ltb order progs sched in
+  cstep ltb order s me = Stepped s' acq ev -> nid (tr s') <> nid (tr s) -> tm s = Some me.
+Proof. exact reach_root_frame. Qed.
+Print Assumptions C07_root_pointer_under_tree_mutex.
+
+(* node identities stay unique and below the allocation counter: a fresh sibling is never confused with an old node *)
+Theorem C07_identities_unique :
+  forall (K V : Type) (ltb : K -> K -> bool) order (progs : list (tid * list (cop K V))) sched,
+  NoDup (map fst progs) -> ids_ok (reach ltb order progs sched).
+Proof. exact reach_ids_ok. Qed.
+Print Assumptions C07_identities_unique.
+
+(* ====================== the concurrent model run without interference is the sequential model ====================== *)
+
+(* from any quiescent well-formed state, a call of Insert/Update/Delete/Search executed alone by the concurrent
+   model terminates, returns exactly what the sequential model's operation returns, leaves exactly the
+   sequential model's tree (identities and links erased), keeps identities unique and the leaf chain in order,
+   and ends quiescent: the atomic executions of the concurrent model are the operations of C01 *)
+Theorem C03_atomic_execution_is_sequential :
+  forall (K V : Type) (ltb : K -> K -> bool), SWO ltb ->
+  forall (order : nat) (s : st K V) (t : tid) (th : thread K V) (o : cop K V) (rest : list (cop K V)) (po : op K V),
+  Nat.even order = true -> (4 <= order \/ (2 <= order /\ forall k, o <> CDelete k)) ->
+  wf_state K V ltb order s -> quiescent K V s ->
+  get_thread t (ths s) = Some th -> prog th = o :: rest -> op_of K V o = Some po ->
+  exists fuel s' evs t' x,
+    run_alone K V ltb fuel order s t = Some (s', evs) /\
+    step_tree ltb order (erase_ids (tr s)) po = Ok (t', x) /\
+    erase_ids (tr s') = t' /\
+    In (EReturn (ores_of K V x)) evs /\
+    wf_state K V ltb order s' /\ quiescent K V s' /\
+    (exists th', get_thread t (ths s') = Some th' /\ prog th' = rest).
+Proof. exact solo_point_op. Qed.
+Print Assumptions C03_atomic_execution_is_sequential.
+
+(* the same for a cursor: NewScanner k, n Scan steps and Close, run alone, yield the first n pairs of the
+   sequential scan (walking the STORED next links: this is where the leaf chain is proved to agree with the
+   in-order leaves), change nothing and release everything *)
+Theorem C02_cursor_walks_the_chain :
+  forall (K V : Type) (ltb : K -> K -> bool), SWO ltb ->
+  forall (order : nat) (s : st K V) (t : tid) (th : thread K V) (k : K) (n : nat) (rest : list (cop K V)),
+  wf_state K V ltb order s -> quiescent K V s ->
+  get_thread t (ths s) = Some th -> prog th = CScan k n :: rest ->
+  exists fuel s' evs l,
+    run_alone K V ltb fuel order s t = Some (s', evs) /\
+    scan ltb k (erase_ids (tr s)) = Ok l /\
+    In (EReturn (RPairs (firstn n l))) evs /\
+    tr s' = tr s /\ quiescent K V s' /\
+    (exists th', get_thread t (ths s') = Some th' /\ prog th' = rest).
+Proof. exact solo_scan. Qed.
+Print Assumptions C02_cursor_walks_the_chain.
